@@ -60,37 +60,48 @@ func verifDirEntry(name string) *filer_pb.Entry {
 	return &filer_pb.Entry{Name: name, IsDirectory: true, Attributes: &filer_pb.FuseAttributes{}}
 }
 
-// verifTree returns one of a few bucket shapes and the object keys it holds (in listing order).
-func verifTree(shape int) (map[string][]*filer_pb.Entry, []string) {
+// verifTreeKeys is the key universe of generated buckets (in listing order).
+var verifTreeKeys = []string{"a", "d/e/f", "d/e/g", "d/x", "d/y", "g/y", "g/z", "g/zz", "h"}
+
+// verifTree builds a bucket holding an arbitrary subset of the key universe (directories are derived
+// from the keys) plus, optionally, the multipart staging folder.
+func verifTree() (map[string][]*filer_pb.Entry, []string) {
 	root := "/buckets/b"
-	switch shape {
-	case 0:
-		return map[string][]*filer_pb.Entry{root: {verifFile("a"), verifFile("c")}}, []string{"a", "c"}
-	case 1:
-		return map[string][]*filer_pb.Entry{
-			root:        {verifFile("a"), verifDirEntry("d"), verifFile("e")},
-			root + "/d": {verifFile("x"), verifFile("y")},
-		}, []string{"a", "d/x", "d/y", "e"}
-	case 2:
-		return map[string][]*filer_pb.Entry{
-			root:              {verifDirEntry(".uploads"), verifDirEntry("d"), verifFile("z")},
-			root + "/.uploads": {verifFile("u")},
-			root + "/d":       {verifDirEntry("e")},
-			root + "/d/e":     {verifFile("f")},
-		}, []string{"d/e/f", "z"}
+	tree := map[string][]*filer_pb.Entry{}
+	seenDir := map[string]bool{}
+	var keys []string
+	if rt.Bool("uploads") {
+		tree[root] = append(tree[root], verifDirEntry(".uploads"))
+		tree[root+"/.uploads"] = []*filer_pb.Entry{verifFile("u")}
 	}
-	return map[string][]*filer_pb.Entry{
-		root:        {verifDirEntry("d"), verifDirEntry("g")},
-		root + "/d": {verifFile("x")},
-		root + "/g": {verifFile("y"), verifFile("z")},
-	}, []string{"d/x", "g/y", "g/z"}
+	n := rt.Param("keys", len(verifTreeKeys))
+	for _, k := range verifTreeKeys[:n] {
+		if !rt.Bool("present") {
+			continue
+		}
+		keys = append(keys, k)
+		parts := strings.Split(k, "/")
+		dir := root
+		for i, p := range parts {
+			if i == len(parts)-1 {
+				tree[dir] = append(tree[dir], verifFile(p))
+				break
+			}
+			if !seenDir[dir+"/"+p] {
+				seenDir[dir+"/"+p] = true
+				tree[dir] = append(tree[dir], verifDirEntry(p))
+			}
+			dir = dir + "/" + p
+		}
+	}
+	return tree, keys
 }
 
 // C27: listing a bucket without delimiter, following the returned marker until the listing is no longer
 // truncated, yields every object key exactly once, never more than max-keys per page, and nothing from
 // the multipart staging area.
 func VerifC27_ListPagination() {
-	tree, keys := verifTree(rt.Choice("shape", 4))
+	tree, keys := verifTree()
 	s3a := &S3ApiServer{option: &S3ApiServerOption{BucketsPath: "/buckets", AllowEmptyFolder: true}, iam: &IdentityAccessManagement{}}
 	client := &verifFiler{tree: tree}
 	maxKeys := rt.Len("maxkeys", 1, rt.Param("maxkeys", 3))
@@ -99,7 +110,7 @@ func VerifC27_ListPagination() {
 	pages := 0
 	for {
 		pages++
-		if pages > 8 {
+		if pages > 12 {
 			rt.Assert(false, "pagination-terminates")
 			return
 		}
